@@ -312,10 +312,15 @@ impl Polynomial<Cmplx> {
         const EPS: f64 = f64::EPSILON;
         let frac: [f64; MR + 1] = [ 0.0,0.5,0.25,0.75,0.13,0.38,0.62,0.88,1.0 ];
         let m = a.size() - 1;
-        // Cauchy: every root lies in the disc |z| <= 1 + max |a_j / a_m|
+        // Fujiwara: every root lies in the disc |z| <= 2 max |a_{m-k} / a_m|^(1/k) (a_0 halved); the Cauchy
+        // disc 1 + max |a_j / a_m| is far too large for x^5 + x + 1000, where the step from 0 lands on -1000
+        // and the step from there returns to 0, for ever
         let mut bound: f64 = 0.0;
-        for j in 0..m { bound = bound.max( ( a[j] / a[m] ).abs() ); }
-        bound += 1.0;
+        for j in 0..m {
+            let ratio = ( a[j] / a[m] ).abs() * if j == 0 { 0.5 } else { 1.0 };
+            bound = bound.max( ratio.powf( 1.0 / ( m - j ) as f64 ) );
+        }
+        bound *= 2.0 * ( 1.0 + 1.0e-12 ); // a root on the boundary must survive rounding
         for iter in 1..MAXIT {
             *iterations = iter;
             let mut b = a[m];
